@@ -26,6 +26,7 @@ package c09
 import (
 	"net/netip"
 	"slices"
+	"strings"
 
 	"github.com/database64128/shadowsocks-go/router"
 
@@ -166,7 +167,12 @@ type world struct {
 	geo *geoModel // nil: no geoLite2CountryDbPath
 	// counterfactual switch used only for the label "geoip-decides": the verdict of the GeoIP
 	// criteria of these kinds is negated
-	geoFlip   uint8
+	geoFlip uint8
+	// which of the two documented readings of invertToDomains together with toMatchedDomainExpected…
+	// the model evaluates (NOTES.md, round 6): false = (a) the flag negates the composite "listed AND
+	// resolves as expected"; true = (b) the flag negates the list membership and the expectation is
+	// still required of the domain. The runner accepts exactly the union of the two.
+	readingB  bool
 	servers   []string
 	tcp       map[string]bool
 	udp       map[string]bool
@@ -237,6 +243,7 @@ type evalInfo struct {
 	cheapFalseResolverFails bool
 	degenerate              []string // labels for degenerate list members met by this request
 	geo                     []string // labels of the GeoIP criteria evaluated for this request
+	r6                      []string // round-6 labels (invert+expectation, expectation given one way only, inverted port criterion vs port 0)
 	fromRepr                string
 	toRepr                  string
 	port0VsSet              string // "", "from-<repr>", "to-<repr>"
@@ -332,6 +339,23 @@ func (w *world) evalRoute(rm *routeModel, q *request) (uint8, evalInfo) {
 	}
 
 	deg := func(l string) { info.degenerate = append(info.degenerate, l) }
+	// Inverted port criteria met by a request that carries port 0. "Match requests from/to all ports
+	// except those in FromPorts/ToPorts": port 0 cannot be listed (refused at load), so it is never one
+	// of "those in …" and the inverted criterion is met. The label is counted when the route matches,
+	// i.e. when that verdict was necessary for the outcome.
+	var port0Inverted []string
+	finish := func(acc uint8) {
+		if acc != vT {
+			return
+		}
+		kind := "domain"
+		if q.IsIP {
+			kind = "ip"
+		}
+		for _, l := range port0Inverted {
+			info.r6 = append(info.r6, "port0-inverted/"+l, "port0-inverted/"+l+"/"+kind+"-target")
+		}
+	}
 	invSuffix := func(flag bool) string {
 		if flag {
 			return "/inverted"
@@ -374,6 +398,9 @@ func (w *world) evalRoute(rm *routeModel, q *request) (uint8, evalInfo) {
 		info.fromRepr = rm.fromPort.repr()
 		if q.Src.Port() == 0 {
 			info.port0VsSet = "from-" + info.fromRepr
+			if rc.InvertFromPorts {
+				port0Inverted = append(port0Inverted, "from-"+info.fromRepr)
+			}
 		}
 		acc = and3(acc, inv(b3(rm.fromPort.set[q.Src.Port()]), rc.InvertFromPorts))
 	}
@@ -406,6 +433,9 @@ func (w *world) evalRoute(rm *routeModel, q *request) (uint8, evalInfo) {
 		info.toRepr = rm.toPort.repr()
 		if q.Port == 0 {
 			info.port0VsSet = "to-" + info.toRepr
+			if rc.InvertToPorts {
+				port0Inverted = append(port0Inverted, "to-"+info.toRepr)
+			}
 		}
 		acc = and3(acc, inv(b3(rm.toPort.set[q.Port]), rc.InvertToPorts))
 	}
@@ -419,6 +449,9 @@ func (w *world) evalRoute(rm *routeModel, q *request) (uint8, evalInfo) {
 	if hasDomain || hasPrefix || hasToGeo {
 		members := 0
 		group := vF
+		others := vF // the prefix and country members of the group
+		var domExp uint8 // verdict of the "resolves as expected" requirement for a domain target
+		var domExpSet, domListed bool
 		if hasDomain {
 			members++
 			if len(rc.ToDomains) > 0 && len(rc.ToDomainSets) > 0 || len(rc.ToDomainSets) > 1 {
@@ -435,24 +468,19 @@ func (w *world) evalRoute(rm *routeModel, q *request) (uint8, evalInfo) {
 			}
 			var member uint8
 			if hasExpected {
-				// never generated together with invertToDomains (documented ambiguously)
-				if q.IsIP {
-					member = vF
-				} else {
-					ip, ek, sk := w.lookup(rc, q.Domain)
-					info.skipped = info.skipped || sk
-					var exp uint8
-					if ek != "" {
-						exp = vE
-						info.errKind = ek
-					} else {
-						info.resolved = true
-						var expP, expG uint8
-						if hasExpPrefix {
-							eps := w.prefixes(rc.ToMatchedDomainExpectedPrefixes, rc.ToMatchedDomainExpectedPrefixSets)
-							expP = inv(b3(routex.AnyContains(eps, ip.Unmap())), rc.InvertToMatchedDomainExpectedPrefixes)
+				// the requirement evaluated for one address
+				expOn := func(ip netip.Addr, info *evalInfo, resolved bool) uint8 {
+					var expP, expG uint8
+					if hasExpPrefix {
+						eps := w.prefixes(rc.ToMatchedDomainExpectedPrefixes, rc.ToMatchedDomainExpectedPrefixSets)
+						expP = b3(routex.AnyContains(eps, ip.Unmap()))
+						if rc.InvertToMatchedDomainExpectedPrefixes {
+							info.inverted = true
+							expP = not3(expP)
 						}
-						if hasExpGeo {
+					}
+					if hasExpGeo {
+						if resolved {
 							info.geo = append(info.geo, "geoip-expected")
 							if rc.InvertToMatchedDomainExpectedGeoIPCountries {
 								info.geo = append(info.geo, "geoip-inverted", "geoip-expected/inverted")
@@ -460,30 +488,81 @@ func (w *world) evalRoute(rm *routeModel, q *request) (uint8, evalInfo) {
 							if dm {
 								info.geo = append(info.geo, "geoip-expected/domain-matched")
 							}
-							expG = inv(w.geoMatch(rc.ToMatchedDomainExpectedGeoIPCountries, ip, geoExp, &info), rc.InvertToMatchedDomainExpectedGeoIPCountries)
 						}
-						switch {
-						case hasExpPrefix && hasExpGeo:
-							// Two "Require the matched domain target to resolve to IP addresses in these …"
-							// sentences: read as one requirement over the union of the address kinds (OR, as
-							// for every other pair of address kinds) or as two requirements (AND). The comments
-							// do not decide; both are accepted.
-							exp = or3(expP, expG) | and3(expP, expG)
+						expG = w.geoMatch(rc.ToMatchedDomainExpectedGeoIPCountries, ip, geoExp, info)
+						if rc.InvertToMatchedDomainExpectedGeoIPCountries {
+							info.inverted = true
+							expG = not3(expG)
+						}
+					}
+					switch {
+					case hasExpPrefix && hasExpGeo:
+						// Two "Require the matched domain target to resolve to IP addresses in these …"
+						// sentences: read as one requirement over the union of the address kinds (OR, as
+						// for every other pair of address kinds) or as two requirements (AND). The comments
+						// do not decide; both are accepted.
+						if resolved {
 							info.geo = append(info.geo, "geoip-expected/with-expected-prefixes")
 							if or3(expP, expG) != and3(expP, expG) {
 								info.geo = append(info.geo, "geoip-open/expected-prefixes-and-countries")
 							}
-						case hasExpGeo:
-							exp = expG
-						default:
-							exp = expP
 						}
+						return or3(expP, expG) | and3(expP, expG)
+					case hasExpGeo:
+						return expG
 					}
-					member = and3(b3(dm), exp)
+					return expP
 				}
+				var exp uint8 // domain targets only
+				if !q.IsIP {
+					ip, ek, sk := w.lookup(rc, q.Domain)
+					info.skipped = info.skipped || sk
+					if ek != "" {
+						exp = vE
+						info.errKind = ek
+					} else {
+						info.resolved = true
+						exp = expOn(ip, &info, true)
+					}
+				}
+				switch {
+				case !rc.InvertToDomains:
+					// "Require the matched domain target to resolve to …": listed AND resolves as expected;
+					// an IP target is not a listed domain
+					if q.IsIP {
+						member = vF
+					} else {
+						member = and3(b3(dm), exp)
+					}
+				case !w.readingB:
+					// reading (a): "Invert destination domain matching logic" negates the whole domain
+					// criterion, which with an expectation is the composite "listed AND resolves as expected"
+					info.inverted = true
+					if q.IsIP {
+						member = vT
+					} else {
+						member = not3(and3(b3(dm), exp))
+					}
+				default:
+					// reading (b): "Match requests to all domains except those in ToDomains or ToDomainSets"
+					// negates the list membership; "Require the matched domain target to resolve to …" still
+					// holds for the domain the route now matches. For an IP target nothing is listed and
+					// there is no domain to resolve: either nothing is required, or the address itself is
+					// held to the requirement (what every "resolved IP" criterion of the package does with
+					// IP targets) - the sentence does not say; both are accepted under this reading.
+					info.inverted = true
+					if q.IsIP {
+						var scratch evalInfo
+						member = vT | expOn(q.IP, &scratch, false)
+					} else {
+						member = and3(not3(b3(dm)), exp)
+					}
+				}
+				domExp, domExpSet = exp, true
 			} else {
 				member = inv(b3(dm), rc.InvertToDomains)
 			}
+			domListed = dm
 			group = or3(group, member)
 		}
 		if hasPrefix {
@@ -507,6 +586,7 @@ func (w *world) evalRoute(rm *routeModel, q *request) (uint8, evalInfo) {
 				}
 			}
 			group = or3(group, member)
+			others = or3(others, member)
 		}
 		if hasToGeo {
 			members++
@@ -538,9 +618,13 @@ func (w *world) evalRoute(rm *routeModel, q *request) (uint8, evalInfo) {
 				}
 			}
 			group = or3(group, member)
+			others = or3(others, member)
 		}
 		if members > 1 {
 			info.orGroup = true
+		}
+		if domExpSet {
+			w.labelExpectation(rm, q, &info, acc == vT && others == vF, domListed, domExp)
 		}
 		if acc == vF {
 			// A resolver-independent condition of this route (network, server, user, source or
@@ -554,7 +638,75 @@ func (w *world) evalRoute(rm *routeModel, q *request) (uint8, evalInfo) {
 		}
 		acc = and3(acc, group)
 	}
+	finish(acc)
 	return acc, info
+}
+
+// labelExpectation classifies a request met by a route that carries a "toMatchedDomainExpected…"
+// requirement. decisive: every other condition of the route holds and no other member of the
+// destination group matches, so the route's verdict is exactly that of the domain member.
+func (w *world) labelExpectation(rm *routeModel, q *request, info *evalInfo, decisive, listed bool, exp uint8) {
+	rc := rm.rc
+	add := func(l string) { info.r6 = append(info.r6, l) }
+	class := ""
+	if q.IsIP {
+		class = "ip-target"
+	} else {
+		class = "unlisted"
+		if listed {
+			class = "listed"
+		}
+		switch exp {
+		case vT:
+			class += "-resolves-inside"
+		case vF:
+			class += "-resolves-outside"
+		case vE:
+			class += "-resolver-fails"
+			if info.errKind == "noips" {
+				class += "-empty"
+			}
+		default:
+			class = "" // an open GeoIP point: no class
+		}
+	}
+	expInverted := len(rc.ToMatchedDomainExpectedPrefixes)+len(rc.ToMatchedDomainExpectedPrefixSets) > 0 && rc.InvertToMatchedDomainExpectedPrefixes ||
+		len(rc.ToMatchedDomainExpectedGeoIPCountries) > 0 && rc.InvertToMatchedDomainExpectedGeoIPCountries
+	if rc.InvertToDomains {
+		// "inside"/"outside" = the requirement (after its own invert flag) holds / does not hold
+		const l = "invert-domains-with-expectation"
+		add(l)
+		if decisive && class != "" {
+			class = strings.TrimSuffix(class, "-empty")
+			add(l + "/" + class)
+			if expInverted {
+				add(l + "/expectation-inverted")
+				add(l + "/expectation-inverted/" + class)
+			} else {
+				add(l + "/expectation-plain")
+			}
+		}
+		return
+	}
+	// the three ways of stating the requirement, each alone
+	way := ""
+	switch np, ns, nc := len(rc.ToMatchedDomainExpectedPrefixes), len(rc.ToMatchedDomainExpectedPrefixSets), len(rc.ToMatchedDomainExpectedGeoIPCountries); {
+	case np > 0 && ns == 0 && nc == 0:
+		way = "inline-prefixes"
+	case np == 0 && ns > 0 && nc == 0:
+		way = "prefix-sets"
+	case np == 0 && ns == 0 && nc > 0:
+		way = "countries"
+	default:
+		return
+	}
+	add("expected-alone/" + way)
+	if decisive && listed && class != "" {
+		add("expected-alone/" + way + "/" + class)
+		if strings.HasSuffix(class, "-empty") {
+			add("expected-alone/" + way + "/" + strings.TrimSuffix(class, "-empty"))
+		}
+	}
 }
 
 type verdict struct {
